@@ -2,6 +2,7 @@ package sender
 
 import (
 	"github.com/gokrazy/rsync/internal/rsyncopts"
+	"github.com/gokrazy/rsync/internal/rsyncwire"
 	"github.com/gokrazy/rsync/internal/vfsx"
 )
 
@@ -109,3 +110,74 @@ func HFlistEncode() {
 }
 
 func init() { verifHarnesses["HFlistEncode"] = HFlistEncode }
+
+// HSenderNumbering (C15): the index by which the receiver requests a file refers to the
+// same file on the sender. A directory holds two files with symbolic one-byte names
+// (any byte but NUL, '/' and '.', so names sorting before "." are included) and different
+// contents; the whole sender (Do: file list, sort, request loop) is asked for the k-th
+// entry of the bytewise-sorted list and must answer with that file's bytes.
+func HSenderNumbering() {
+	fsys := vfsx.New()
+	defer fsys.Cleanup()
+	n1, n2 := nd_u8(), nd_u8()
+	vassume(n1 != 0)
+	vassume(n1 != '/')
+	vassume(n1 != '.')
+	vassume(n2 != 0)
+	vassume(n2 != '/')
+	vassume(n2 != '.')
+	vassume(n1 != n2)
+	s1, s2 := string([]byte{n1}), string([]byte{n2})
+	fsys.Add(&vfsx.Node{Name: s1, Kind: vfsx.KReg, Perm: 0o644, Data: []byte{0x41}})
+	fsys.Add(&vfsx.Node{Name: s2, Kind: vfsx.KReg, Perm: 0o644, Data: []byte{0x42, 0x42}})
+	// reference numbering: bytewise order of ".", s1, s2
+	names := []string{".", s1, s2}
+	for i := 1; i < len(names); i++ {
+		for j := i; j > 0 && names[j] < names[j-1]; j-- {
+			names[j], names[j-1] = names[j-1], names[j]
+		}
+	}
+	k := nd_range(0, 2)
+	vassume(names[k] != ".")
+	var in []byte
+	in = putI32(in, int32(k))
+	in = putI32(in, 0)
+	in = putI32(in, 0)
+	in = putI32(in, 0)
+	in = putI32(in, 0)
+	in = putI32(in, -1)
+	in = putI32(in, -1)
+	in = putI32(in, -1) // goodbye
+	conn := newVconn(in)
+	st := newSenderTransfer(conn, nd_i32(), rsyncopts.VerifFlags{Server: true, Sender: true, Recurse: true, XferDirs: 1})
+	// directory-backed module: the sender opens its own os.Root on the module path
+	modPath := "/model/src"
+	if p := fsys.RealPath(); p != "" {
+		modPath = p
+	}
+	vfsx.AmbientRoots[modPath] = "."
+	crd, cwr := rsyncwire.CounterPair(conn, conn)
+	st.Conn = &rsyncwire.Conn{Reader: crd, Writer: cwr}
+	_, err := st.Do(crd, cwr, modPath, []string{"."}, nil)
+	vassert(err == nil, "sender session failed")
+	if err != nil {
+		return
+	}
+	// skip the file list, then: index echo, header, tokens
+	_, _, consumed, ok := refDecodeList(conn.out, refOpts{}, 4)
+	vassert(ok, "file list not decodable")
+	if !ok {
+		return
+	}
+	out := conn.out[consumed:]
+	vassert(len(out) >= 24 && getI32(out, 0) == int32(k), "index echo")
+	r := refReceive(out, 20, nil, 700, 0, 0)
+	want := []byte{0x41}
+	if names[k] == s2 {
+		want = []byte{0x42, 0x42}
+	}
+	vassert(bytesEq(r.result, want), "the sender answered the request with another file: its numbering differs from the bytewise order of the names")
+	vreach("numbered")
+}
+
+func init() { verifHarnesses["HSenderNumbering"] = HSenderNumbering }
